@@ -36,6 +36,9 @@ var repoFiles = []string{
 	"internal/corerad/monitor.go",
 	"internal/corerad/server.go",
 	"internal/netstate/watcher.go",
+	// The package-level lock between Prepare and Apply/String: taking it is a
+	// scheduling point (and must block durably under the virtual clock).
+	"internal/plugin/plugin.go",
 }
 
 type instr struct {
@@ -293,6 +296,10 @@ func instrumentFile(s *staged, base string, stats map[string]int) {
 		astutil.Apply(fd.Body, in.pre, nil)
 	}
 	astutil.AddImport(s.fset, s.file, rtBase+"vsched")
+	// A file without any rewritten operation must still use the import.
+	s.file.Decls = append(s.file.Decls, &ast.GenDecl{Tok: token.VAR, Specs: []ast.Spec{
+		&ast.ValueSpec{Names: []*ast.Ident{ast.NewIdent("_")}, Values: []ast.Expr{sel("vsched", "Point")}},
+	}})
 }
 
 func modDir(mod string) string {
